@@ -125,8 +125,8 @@ pub fn run(ctx: &mut Ctx) {
         }
     }
 
-    // 2b. one payload beyond 2^24 bytes (thorough only)
-    if ctx.shard == 0 && ctx.tier == crate::monitor::Tier::Thorough && !ctx.miri {
+    // 2b. one payload beyond 2^24 bytes
+    if ctx.shard == 0 && !ctx.miri {
         ctx.next_case();
         ctx.count("huge_payload_docs");
         check_one(ctx, &gen::huge_payload_doc());
